@@ -480,7 +480,7 @@ fn threshold_cases(out: &mut Out, rng: &mut Rng, th: bool, frl: bool, frp: bool)
 
 pub fn gen_c01(rng: &mut Rng, tier: &str, out: &mut Out) {
     let th = thorough(tier);
-    let n = if th { 1500 } else { 360 };
+    let n = if th { 6000 } else { 360 };
     for i in 0..n {
         let mut cfg = Cfg::domain();
         if i % 7 == 0 {
@@ -526,7 +526,7 @@ pub fn gen_c01(rng: &mut Rng, tier: &str, out: &mut Out) {
 
 pub fn gen_c02(rng: &mut Rng, tier: &str, out: &mut Out) {
     let th = thorough(tier);
-    let n = if th { 1200 } else { 280 };
+    let n = if th { 4800 } else { 280 };
     for i in 0..n {
         let mut cfg = if i % 10 == 6 { big_class_cfg() } else { Cfg::domain() };
         if i == 11 || (th && i % 40 == 11) {
@@ -622,7 +622,7 @@ pub fn gen_c02(rng: &mut Rng, tier: &str, out: &mut Out) {
 
 pub fn gen_c03(rng: &mut Rng, tier: &str, out: &mut Out) {
     let th = thorough(tier);
-    let n = if th { 2500 } else { 640 };
+    let n = if th { 10000 } else { 640 };
     for _ in 0..n {
         let mut cfg = Cfg::domain();
         cfg.min_classes = 2;
@@ -648,7 +648,7 @@ pub fn gen_c03(rng: &mut Rng, tier: &str, out: &mut Out) {
 
 pub fn gen_c04(rng: &mut Rng, tier: &str, out: &mut Out) {
     let th = thorough(tier);
-    let n = if th { 400 } else { 160 };
+    let n = if th { 1600 } else { 160 };
     for i in 0..n {
         let mut cfg = Cfg::domain();
         cfg.many_similar = true;
@@ -793,7 +793,7 @@ pub fn malformed_variants(rng: &mut Rng, line: &str) -> Vec<String> {
 
 pub fn gen_c05(rng: &mut Rng, tier: &str, out: &mut Out) {
     let th = thorough(tier);
-    let n = if th { 60000 } else { 24000 };
+    let n = if th { 240000 } else { 24000 };
     for _ in 0..n {
         let l = wf_line(rng);
         let term = rng.pick(&["", "\n", "\r\n", "\n\n", "\r"]);
@@ -871,7 +871,7 @@ pub fn gen_c05(rng: &mut Rng, tier: &str, out: &mut Out) {
 
 pub fn gen_c06(rng: &mut Rng, tier: &str, out: &mut Out) {
     let th = thorough(tier);
-    let n = if th { 40000 } else { 16000 };
+    let n = if th { 160000 } else { 16000 };
     for i in 0..n {
         let text = match i % 5 {
             0 => soup(rng, 60),
@@ -926,7 +926,7 @@ pub fn gen_c06(rng: &mut Rng, tier: &str, out: &mut Out) {
 
 pub fn gen_c07(rng: &mut Rng, tier: &str, out: &mut Out) {
     let th = thorough(tier);
-    let n = if th { 3000 } else { 1000 };
+    let n = if th { 12000 } else { 1000 };
     for i in 0..n {
         let text = if i % 6 == 0 { Vec::new() } else { domain_mapping(rng, &Cfg::domain()) };
         map_op(out, true, &text);
@@ -948,7 +948,7 @@ pub fn gen_c07(rng: &mut Rng, tier: &str, out: &mut Out) {
 
 pub fn gen_c08(rng: &mut Rng, tier: &str, out: &mut Out) {
     let th = thorough(tier);
-    let n = if th { 3000 } else { 1000 };
+    let n = if th { 12000 } else { 1000 };
     for _ in 0..n {
         let text = domain_mapping(rng, &Cfg::domain());
         map_op(out, true, &text);
@@ -977,7 +977,7 @@ pub fn gen_c08(rng: &mut Rng, tier: &str, out: &mut Out) {
 
 pub fn gen_c09(rng: &mut Rng, tier: &str, out: &mut Out) {
     let th = thorough(tier);
-    let n = if th { 4000 } else { 1600 };
+    let n = if th { 16000 } else { 1600 };
     for i in 0..n {
         let mut cfg = Cfg::domain();
         if i % 9 == 0 {
@@ -1084,7 +1084,7 @@ fn buf_queries(out: &mut Out, rng: &mut Rng, dom: bool, u: &Universe, nline: usi
 
 pub fn gen_c10(rng: &mut Rng, tier: &str, out: &mut Out) {
     let th = thorough(tier);
-    let n = if th { 2500 } else { 800 };
+    let n = if th { 10000 } else { 800 };
     for i in 0..n {
         let text = if i % 5 == 4 { gen_mapping(rng, &Cfg::hostile()).text } else { domain_mapping(rng, &Cfg::domain()) };
         let dom = is_representable(&text);
@@ -1112,7 +1112,7 @@ fn get_u32(b: &[u8], off: usize) -> u32 {
 
 pub fn gen_c11(rng: &mut Rng, tier: &str, out: &mut Out) {
     let th = thorough(tier);
-    let n = if th { 600 } else { 200 };
+    let n = if th { 2400 } else { 200 };
     for i in 0..n {
         let mut cfg = Cfg::domain();
         cfg.max_classes = 3;
@@ -1294,7 +1294,7 @@ pub fn corrupt_buffers(rng: &mut Rng, bytes: &[u8], per: usize) -> Vec<Vec<u8>> 
 
 pub fn gen_c12(rng: &mut Rng, tier: &str, out: &mut Out) {
     let th = thorough(tier);
-    let n = if th { 1200 } else { 440 };
+    let n = if th { 4800 } else { 440 };
     for _ in 0..n {
         let mut cfg = Cfg::domain();
         cfg.max_classes = 4;
@@ -1342,7 +1342,7 @@ pub fn gen_c12(rng: &mut Rng, tier: &str, out: &mut Out) {
 
 pub fn gen_c13(rng: &mut Rng, tier: &str, out: &mut Out) {
     let th = thorough(tier);
-    let n = if th { 3000 } else { 1040 };
+    let n = if th { 12000 } else { 1040 };
     for i in 0..n {
         let text = match i % 4 {
             0 => gen_mapping(rng, &Cfg::hostile()).text,
@@ -1391,7 +1391,7 @@ pub fn gen_c13(rng: &mut Rng, tier: &str, out: &mut Out) {
 
 pub fn gen_c14(rng: &mut Rng, tier: &str, out: &mut Out) {
     let th = thorough(tier);
-    let n = if th { 3000 } else { 1200 };
+    let n = if th { 12000 } else { 1200 };
     for i in 0..n {
         let mut cfg = if i % 3 == 0 { Cfg::hostile() } else { Cfg::domain() };
         if i % 10 == 0 {
@@ -1419,7 +1419,7 @@ pub fn gen_c14(rng: &mut Rng, tier: &str, out: &mut Out) {
 
 pub fn gen_c15(rng: &mut Rng, tier: &str, out: &mut Out) {
     let th = thorough(tier);
-    let n = if th { 1500 } else { 600 };
+    let n = if th { 6000 } else { 600 };
     for _ in 0..n {
         let mut cfg = Cfg::domain();
         cfg.max_classes = 4;
@@ -1445,7 +1445,7 @@ pub fn gen_c15(rng: &mut Rng, tier: &str, out: &mut Out) {
 
 pub fn gen_c16(rng: &mut Rng, tier: &str, out: &mut Out) {
     let th = thorough(tier);
-    let n = if th { 1500 } else { 600 };
+    let n = if th { 6000 } else { 600 };
     for i in 0..n {
         let text = if i % 5 == 0 { Vec::new() } else { domain_mapping(rng, &Cfg::domain()) };
         map_op(out, true, &text);
@@ -1483,7 +1483,7 @@ pub fn gen_c16(rng: &mut Rng, tier: &str, out: &mut Out) {
 
 pub fn gen_c17(rng: &mut Rng, tier: &str, out: &mut Out) {
     let th = thorough(tier);
-    let n = if th { 40000 } else { 12000 };
+    let n = if th { 160000 } else { 12000 };
     let u = universe(b"o.A -> a:\n    1:3:void x():1:3 -> m\no.B$C -> a.b$c:\n    void <init>() -> <init>\n");
     let tg = TraceGen { u: &u };
     for _ in 0..n {
@@ -1523,7 +1523,7 @@ pub fn gen_c18(rng: &mut Rng, tier: &str, out: &mut Out) {
         out.d(format!("UUID {}", hx(&crlf)));
         out.count(&format!("corpus:{}", name));
     }
-    let n = if th { 3000 } else { 1200 };
+    let n = if th { 12000 } else { 1200 };
     for i in 0..n {
         let len = match i % 6 {
             0 => rng.below(8),
@@ -1569,7 +1569,7 @@ pub fn gen_c18(rng: &mut Rng, tier: &str, out: &mut Out) {
 
 pub fn gen_c19(rng: &mut Rng, tier: &str, out: &mut Out) {
     let th = thorough(tier);
-    let n = if th { 5000 } else { 2000 };
+    let n = if th { 20000 } else { 2000 };
     for i in 0..n {
         let mut t: Vec<u8> = Vec::new();
         match i % 6 {
@@ -1634,7 +1634,7 @@ pub fn gen_c19(rng: &mut Rng, tier: &str, out: &mut Out) {
 pub fn gen_c20(rng: &mut Rng, tier: &str, out: &mut Out) {
     // the sequential reference answers of the concurrent oracle are also tied to the model
     let th = thorough(tier);
-    let n = if th { 300 } else { 120 };
+    let n = if th { 1200 } else { 120 };
     for _ in 0..n {
         let text = domain_mapping(rng, &Cfg::domain());
         map_op(out, true, &text);
